@@ -310,9 +310,36 @@ impl<'e> Worker<'e> {
         }
     }
 
+    /// Alternative instantiations (types without drop glue, default constructors): see alt.rs.
+    fn unit_alt(&mut self, idx: u64, seed: u64) {
+        if self.wa.is_some() {
+            let t = Trace0::seed(&self.prop, self.verif_seed, idx, "", "", "", if self.thorough { "thorough" } else { "quick" });
+            self.wa_write(&t);
+        }
+        let (viols, runs) = crate::alt::run_unit(seed);
+        self.res.evaluations += runs;
+        *self.res.probes.entry("alternative_instantiation_histories".into()).or_insert(0) += runs;
+        for v in viols {
+            if v.props & self.pbit == 0 {
+                self.res.other_property_violations += 1;
+                continue;
+            }
+            if self.res.violations.iter().any(|r| r.class == v.class) || self.res.violations.len() >= self.max_viol {
+                continue;
+            }
+            let path = replay_dir().join(format!("{}-{}-{}-{}.json", self.prop, self.verif_seed, idx, v.class));
+            let t = Trace0::seed(&self.prop, self.verif_seed, idx, v.class, &v.msg, "", if self.thorough { "thorough" } else { "quick" });
+            write_trace(&path, &t);
+            self.res.violations.push(VRec { property: self.prop.clone(), class: v.class.to_string(), msg: v.msg, replay: path.to_string_lossy().into_owned(), run_index: idx, steps: 0 });
+        }
+    }
+
     fn unit(&mut self, idx: u64) {
         let stream = prop_num(&self.prop) as u64;
         let seed = derive(self.verif_seed, stream, idx);
+        if idx % 32 == 17 && matches!(self.prop.as_str(), "C02" | "C04" | "C05" | "C06" | "C12" | "C13" | "C14") {
+            return self.unit_alt(idx, seed);
+        }
         match self.prop.as_str() {
             "C16" => {
                 let base = gen_base(self.env, "C16", seed, true);
@@ -550,6 +577,7 @@ pub fn check_main(prop: &str, tier: &str) -> i32 {
     // supervise
     let hang_limit = Duration::from_secs(std::env::var("LRUSIM_HANG_SECS").ok().and_then(|s| s.parse().ok()).unwrap_or(30));
     let mut dead: Vec<(u64, &'static str)> = Vec::new(); // (run index, how)
+    let mut harness_failed = false;
     loop {
         let mut running = 0;
         for c in children.iter_mut() {
@@ -566,6 +594,12 @@ pub fn check_main(prop: &str, tier: &str) -> i32 {
                     c.done = true;
                     if !status.success() {
                         let idx = read_status(&c.prefix);
+                        if status.code().is_some() {
+                            // an exit code (101 = panic in the harness itself), not a signal: this is
+                            // a harness error, never a verdict about the code under test
+                            eprintln!("harness error: worker for runs {}..{} exited with {} at run index {} (LRUSIM_VERBOSE_PANICS=1 shows the panic)", c.from, c.to, status, idx);
+                            harness_failed = true;
+                        }
                         dead.push((idx, "crashed"));
                         eprintln!("worker for runs {}..{} died ({}) at run index {}", c.from, c.to, status, idx);
                     }
@@ -591,6 +625,14 @@ pub fn check_main(prop: &str, tier: &str) -> i32 {
             break;
         }
         std::thread::sleep(Duration::from_millis(25));
+    }
+    if harness_failed {
+        for c in &children {
+            for ext in ["result", "digests", "states", "status"] {
+                let _ = std::fs::remove_file(c.prefix.with_extension(ext));
+            }
+        }
+        return 2;
     }
     // aggregate
     let mut total = WorkerResult::default();
@@ -744,7 +786,7 @@ pub fn check_main(prop: &str, tier: &str) -> i32 {
         let m = crate::threads::miri_phase(verif_seed, programs, seeds_per, nthreads, ops, ncpu.min(if thorough { 16 } else { 6 }));
         for v in &m.violations {
             let parts: Vec<&str> = v.splitn(3, '|').collect();
-            if parts.len() == 3 {
+            if parts.len() == 3 && !confirmed.iter().any(|c| c.class == parts[0]) {
                 confirmed.push(VRec { property: prop.into(), class: parts[0].into(), msg: parts[1].into(), replay: parts[2].into(), run_index: 0, steps: 0 });
             }
         }
@@ -756,7 +798,26 @@ pub fn check_main(prop: &str, tier: &str) -> i32 {
             san.insert("miri_unavailable".into(), json!(e));
         }
     }
-    if thorough && matches!(prop, "C06" | "C07" | "C12" | "C16" | "C17") && std::env::var_os("LRUSIM_NO_SANITIZERS").is_none() {
+    let san_props = matches!(prop, "C06" | "C07" | "C12" | "C16" | "C17");
+    if !thorough && prop == "C07" && std::env::var_os("LRUSIM_NO_SANITIZERS").is_none() {
+        // quick C07 carries a small ASan pass: reads of freed / moved-out memory during an operation
+        // that ends coherent are invisible to the structural oracles
+        let a = crate::sanitize::asan_phase(prop, "quick", verif_seed, 4_000, ncpu as u64);
+        for (class, msg, path) in &a.violations {
+            if confirmed.iter().any(|c| &c.class == class) {
+                let _ = std::fs::remove_file(path);
+                continue;
+            }
+            confirmed.push(VRec { property: prop.into(), class: class.clone(), msg: msg.clone(), replay: path.clone(), run_index: 0, steps: 0 });
+        }
+        san.insert("asan_units".into(), json!(a.runs));
+        san.insert("asan_wall_s".into(), json!(a.wall_s));
+        if let Some(e) = &a.error {
+            println!("note: the ASan phase could not run ({})", e);
+            san.insert("asan_unavailable".into(), json!(e));
+        }
+    }
+    if thorough && san_props && std::env::var_os("LRUSIM_NO_SANITIZERS").is_none() {
         let asan_units: u64 = match prop {
             "C16" => 6_000,
             "C17" => 1_200,
@@ -764,6 +825,10 @@ pub fn check_main(prop: &str, tier: &str) -> i32 {
         };
         let a = crate::sanitize::asan_phase(prop, "quick", verif_seed, asan_units, ncpu as u64);
         for (class, msg, path) in &a.violations {
+            if confirmed.iter().any(|c| &c.class == class) {
+                let _ = std::fs::remove_file(path);
+                continue;
+            }
             confirmed.push(VRec { property: prop.into(), class: class.clone(), msg: msg.clone(), replay: path.clone(), run_index: 0, steps: 0 });
         }
         san.insert("asan_units".into(), json!(a.runs));
@@ -778,6 +843,10 @@ pub fn check_main(prop: &str, tier: &str) -> i32 {
         };
         let m = crate::sanitize::miri_phase(prop, "quick", verif_seed, miri_units, ncpu, Duration::from_secs(240));
         for (class, msg, path) in &m.violations {
+            if confirmed.iter().any(|c| &c.class == class) {
+                let _ = std::fs::remove_file(path);
+                continue;
+            }
             confirmed.push(VRec { property: prop.into(), class: class.clone(), msg: msg.clone(), replay: path.clone(), run_index: 0, steps: 0 });
         }
         san.insert("miri_units".into(), json!(m.runs));
